@@ -32,12 +32,12 @@ REQUIRED_MONITORS = ['valid_identified', 'metamorphic_same_code', 'no_raise', 'c
 MIN_NONTRIVIAL = {'quick': 20000, 'thorough': 300000}
 NSHARDS = 16
 COUNTS = {'quick': (300, 5000), 'thorough': (4000, 90000)}      # per shard: valid files, hostile inputs
-TIMEOUT_S = {'quick': 400, 'thorough': 3300}
+TIMEOUT_S = {'quick': 600, 'thorough': 3300}
 # logical-clock budget, calibrated (see evidence keys max_steps_*): steps <= A * len + B
 BUDGET_A, BUDGET_B = 1000, 5_000_000
 
 
-FUZZ_RUNS = {'quick': 25000, 'thorough': 1500000}     # executions of the coverage-guided (atheris / libFuzzer) leg
+FUZZ_RUNS = {'quick': 20000, 'thorough': 1500000}     # executions of the coverage-guided (atheris / libFuzzer) leg
 
 
 def plan(tier, seed):
@@ -163,7 +163,7 @@ def run_atheris(ctx, p):
         cmd = [sys.executable, '-m', 'tdv.props.c20_fuzz', corpus, prefix, '-runs=%d' % remaining, '-seed=%d' % (1 + ctx.seed * 16 + attempt),
                '-max_len=8192', '-timeout=25', '-rss_limit_mb=3000', '-print_final_stats=1']
         try:
-            r = subprocess.run(cmd, env=env, stdout=subprocess.PIPE, stderr=subprocess.STDOUT, timeout=TIMEOUT_S[ctx.tier] - 300)
+            r = subprocess.run(cmd, env=env, stdout=subprocess.PIPE, stderr=subprocess.STDOUT, timeout=TIMEOUT_S[ctx.tier] - 240)
             out, rc = r.stdout.decode('utf-8', 'replace'), r.returncode
         except subprocess.TimeoutExpired as e:
             out, rc = (e.stdout or b'').decode('utf-8', 'replace'), None
@@ -184,7 +184,8 @@ def run_atheris(ctx, p):
         if rc == 0:
             break
         if rc is None:
-            rec.inconclusive_because('atheris child hit the wall-clock watchdog after %d executions' % executed)
+            # a slow machine, not a finding: the executions made are counted, too few of them make the run inconclusive below
+            rec.note('atheris_child_stopped_by_wall_clock_after_executions', executed)
             break
         if not arts:
             rec.inconclusive_because('atheris child exited rc=%s without an artifact: %s' % (rc, out[-400:]))
